@@ -319,9 +319,53 @@ def run_pinned(asm, acc, case):
         case, {'lines': [ln[:100] for ln in lines[:12]]}, key='pinned-target' if predicted else None)
 
 
+# labels whose spelling Python would read as something about a *constant* of the program (an attribute of it, its NFKC twin): the label is
+# what the line names (F44), also for the pass that decides what may be compressed
+PY_PAIRS = [('SCALE', 'SCALE.numerator'), ('N', 'N.real'), ('no', 'n\u00ba'), ('A', '\uff21'), ('K', 'K.imag'), ('tab', 'tab.denominator'), ('fix', '\ufb01x'),
+            ('BASE', 'BASE.real')]
+PY_SHAPES = [
+    ['lw a0, {L}(s1)', 'slli a0, a0, 2', 'ret', '{L}:', 'dw 3'],
+    ['align 0x800', '{L}:', 'li s0, {L}'],
+    ['lw x8, {L}(x9)', '{L}:', 'dw 0'],
+    ['addi x8, x8, {L}', 'c.nop', 'addi x9, x9, 1', 'nop', 'nop', 'nop', 'nop', 'nop', 'nop', 'nop', '{L}:', 'dw 1'],
+    ['c.nop', 'addi x9, x9, 1', 'lui x8, {L}', 'string ' + 'G' * 4090, '{L}:', 'dw 1'],
+    ['sw x8, {L}(x9)', 'add x8, x8, x9', 'db 1', 'db 2', '{L}:', 'dw 1'],
+    ['andi x8, x8, {L}', 'mv x8, x9', 'string ' + 'G' * 28, '{L}:'],
+    ['c.nop', 'mv x8, x9', 'slli x8, x8, {L}', 'string ' + 'G' * 24, '{L}:'],
+]
+
+
+def run_pyname(asm, acc, case):
+    cname, lname = PY_PAIRS[case['idx'] % len(PY_PAIRS)]
+    shape = PY_SHAPES[case['idx'] // len(PY_PAIRS) % len(PY_SHAPES)]
+    value = [0, 1, 3, 4][case['idx'] // (len(PY_PAIRS) * len(PY_SHAPES)) % 4]
+    lines = ['%s = %d' % (cname, value)] + [l.replace('{L}', lname) for l in shape]
+    src = '\n'.join(lines) + '\n'
+    acc['n'] += 1
+    u = monitors.observe(asm, src, False, tap=False)
+    if not u.ok:
+        acc['ctr']['refused_uncompressed'] += 1
+        acc['ctr']['pyname_refused_uncompressed'] += 1
+        return
+    acc['ctr']['accepted_uncompressed'] += 1
+    acc['ntkeys'].add(core.ckey(src))
+    c = monitors.observe(asm, src, True, tap=False)
+    if c.ok:
+        acc['ctr']['accepted_both'] += 1
+        acc['ctr']['pyname_accepted_both'] += 1
+        if len(c.out) < len(u.out):
+            acc['ctr']['compression_happened'] += 1
+    else:
+        core.add_viol(acc, 'program assembles without compression (%d bytes) but fails with it: %s: %s (line %s: %r)' % (
+            len(u.out), c.exc['type'], c.exc['msg'], c.exc.get('number'), lines[c.exc['number'] - 1] if c.exc.get('number') and 0 < c.exc['number'] <= len(lines) else None),
+            case, {'lines': [l[:60] for l in lines]})
+
+
 def run_case(asm, acc, case):
     if case['kind'] in ('pinned', 'oddpin'):
         return run_pinned(asm, acc, case)
+    if case['kind'] == 'pyname':
+        return run_pyname(asm, acc, case)
     items = make(case, asm)
     lines = P.render(items)
     src = '\n'.join(lines) + '\n'
@@ -381,8 +425,8 @@ def run_shard(sh, deadline):
 
 
 def plan(tier, seed):
-    n = ({'rand': 3000, 'edge': 2500, 'shift': 500, 'dist': 1200, 'abs': 1500, 'pinned': 420, 'oddpin': 48} if tier == 'quick' else
-         {'rand': 120000, 'edge': 70000, 'shift': 10000, 'dist': 24000, 'abs': 60000, 'pinned': 2520, 'oddpin': 48})
+    n = ({'rand': 3000, 'edge': 2500, 'shift': 500, 'dist': 1200, 'abs': 1500, 'pinned': 420, 'oddpin': 48, 'pyname': 256} if tier == 'quick' else
+         {'rand': 120000, 'edge': 70000, 'shift': 10000, 'dist': 24000, 'abs': 60000, 'pinned': 2520, 'oddpin': 48, 'pyname': 256})
     cases = [{'kind': k, 'seed': seed, 'idx': i} for k, cnt in n.items() for i in range(cnt)]
     nsh = 64 if tier == 'quick' else 512
     shards = [{'cases': cases[i::nsh]} for i in range(nsh)]
